@@ -78,6 +78,35 @@ example : (⟨[[0x61], [0x65, 0xcc, 0x81], [0x62]]⟩ : Str).sliceBytes 1 3 = .o
     (⟨[[0x61], [0x65, 0xcc, 0x81], [0x62]]⟩ : Str).sliceBytes 2 1 = .error .invalidSliceIndex ∧
     (⟨[[0x61]]⟩ : Str).sliceBytes 0 2 = .error .sliceIndices := by decide
 
+/-- Soundness of the aligned search, for *any* segmentation: whenever the byte search with its two
+boundary tests (`strings.Index`, `seekGraphemeBoundaryStartPrepared`, `isGraphemeBoundaryEndPrepared`)
+reports a match `(i, off)` for a non-empty needle, `off` is the byte offset at which cluster `i`
+starts and a whole number of clusters from `i` on concatenate to exactly the needle; the empty needle
+is found at 0 and nothing is found in the empty string.
+
+Full statement `index_aligned` (the reported index is moreover the *first* such `i`, i.e.
+`s.indexOf needle = (Spec.Str.indexOf s.clusters needle 0).map fun i => (i, startOf s.clusters i)`,
+and `count` / `split` / `replaceAll` equal their cluster-list specs): not proved here — checked on
+every `index` / `contains` / `count` / `split` / `replace` line of stream `str` by the executable
+cluster-list spec. -/
+theorem index_aligned_partial (s : Str) (needle : Bytes) :
+    (needle = [] → s.indexOf needle = some (0, 0)) ∧
+    (needle ≠ [] → s.bytes = [] → s.indexOf needle = none) ∧
+    (needle ≠ [] → ∀ i off, s.indexOf needle = some (i, off) →
+      i < s.clusters.length ∧ off = startOf s.clusters i ∧
+      Verif.Spec.Str.alignedPrefix (s.clusters.drop i) needle = true) := by
+  refine ⟨?_, ?_, ?_⟩
+  · intro h; subst h; simp [Str.indexOf]
+  · intro hn hb
+    have hl : needle.length ≠ 0 := by simpa using hn
+    simp [Str.indexOf, hl, hb]
+  · intro hn i off h
+    exact indexOf_sound s needle hn i off h
+
+-- `"e\u{301}a".index(of: "e")`: the byte occurrence at 0 ends inside a cluster; `"ae\u{301}".index(of: "e\u{301}")` = 1
+example : (⟨[[0x65, 0xcc, 0x81], [0x61]]⟩ : Str).indexOf [0x65] = none ∧
+    (⟨[[0x61], [0x65, 0xcc, 0x81]]⟩ : Str).indexOf [0x65, 0xcc, 0x81] = some (1, 1) := by decide
+
 /-- `String.encodeHex` followed by `decodeHex` is the identity on byte arrays. -/
 theorem hex_roundtrip (bs : Bytes) : decodeHex (encodeHex bs) = .ok bs := decode_encode bs
 
